@@ -43,6 +43,33 @@ Section Strategies.
   Definition finish (st : loop_state * bool) (fallthrough : result A) : result A :=
     match fst st with Some r => r | None => fallthrough end.
 
+  (* loop body of LeftmostNonPrivate / RightmostNonPrivate:
+       if ip != nil && !isIPContainedInRanges(ip.IP, ranges) { return ip, nil }
+     (an element None is a panic raised while the iterator computed it) *)
+  Definition scan_yield (tr : A -> bool) (ip : option (option A)) (st : loop_state) : loop_state * bool :=
+    match ip with
+    | None => (Some Panic, false)
+    | Some (Some a) => if negb (tr a) then (Some (Ok a), false) else (st, true)
+    | Some None => (st, true)
+    end.
+
+  (* loop body of RightmostTrustedRange *)
+  Definition range_yield (tr : A -> bool) (ip : option (option A)) (st : loop_state) : loop_state * bool :=
+    match ip with
+    | None => (Some Panic, false)
+    | Some (Some a) => if tr a then (st, true) else (Some (Ok a), false)      (* trusted: continue *)
+    | Some None => (Some (Err [ERangeNoValid]), false)
+    end.
+
+  (* loop body of iterutil.At, with a panicking element made explicit (it aborts At) *)
+  Definition count_yield (v : option (option A)) (st : option (option (option A)) * N)
+    : option (option (option A)) * N * bool :=
+    let '(res, n) := st in
+    match v with
+    | None => ((Some None, n), false)
+    | Some e => if 0 <? n then ((res, n - 1), true) else ((Some (Some e), n), false)
+    end.
+
   (* LeftmostNonPrivate.ClientIP *)
   Definition leftmost_non_private (fwd : bool) (values : list bytes) (limit : N) (blacklisted : A -> bool)
     : result A :=
@@ -50,13 +77,7 @@ Section Strategies.
     | [] => Err [ELeftmost]
     | _ =>
       finish
-        (take (ip_addr_seq A parse fwd values) limit loop_state
-           (fun ip st =>
-              match ip with
-              | None => (Some Panic, false)
-              | Some (Some a) => if negb (blacklisted a) then (Some (Ok a), false) else (st, true)
-              | Some None => (st, true)
-              end) None)
+        (take (ip_addr_seq A parse fwd values) limit loop_state (scan_yield blacklisted) None)
         (Err [ELeftmost])
     end.
 
@@ -66,28 +87,15 @@ Section Strategies.
     | [] => Err [ERightNonPrivate]
     | _ =>
       finish
-        (backward_ip_addr_seq A parse fwd values loop_state
-           (fun ip st =>
-              match ip with
-              | None => (Some Panic, false)
-              | Some (Some a) => if negb (trusted a) then (Some (Ok a), false) else (st, true)
-              | Some None => (st, true)
-              end) None)
+        (backward_ip_addr_seq A parse fwd values loop_state (scan_yield trusted) None)
         (Err [ERightNonPrivate])
     end.
 
   (* RightmostTrustedCount.ClientIP: At(seq, trustedCount-1) on a uint *)
   Definition rightmost_trusted_count (fwd : bool) (values : list bytes) (trustedCount : N) : result A :=
     let n := if trustedCount =? 0 then 2 ^ 64 - 1 else trustedCount - 1 in
-    (* a panicking element aborts At before it can return: scan with the panic made explicit *)
     let '((res, _), _) :=
-      backward_ip_addr_seq A parse fwd values (option (option (option A)) * N)%type
-        (fun v '(res, n) =>
-           match v with
-           | None => ((Some None, n), false)
-           | Some e => if 0 <? n then ((res, n - 1), true) else ((Some (Some e), n), false)
-           end)
-        (None, n) in
+      backward_ip_addr_seq A parse fwd values (option (option (option A)) * N)%type count_yield (None, n) in
     match res with
     | None => Err [ECountFewer]
     | Some None => Panic
@@ -102,13 +110,7 @@ Section Strategies.
     | None => Err [ERangeResolver]
     | Some trusted =>
       finish
-        (backward_ip_addr_seq A parse fwd values loop_state
-           (fun ip st =>
-              match ip with
-              | None => (Some Panic, false)
-              | Some (Some a) => if trusted a then (st, true) else (Some (Ok a), false)
-              | Some None => (Some (Err [ERangeNoValid]), false)
-              end) None)
+        (backward_ip_addr_seq A parse fwd values loop_state (range_yield trusted) None)
         (Err [ERangeNoValid])
     end.
 
